@@ -1189,6 +1189,19 @@ func ruleNONEMPTY(w *World, r *Report, pkgs ...string) {
 					continue
 				}
 				var phi ssa.Value
+				factBlock := b
+				// a parameter of a private helper with one call site stands for the argument there,
+				// and the facts that count are those that hold at the call
+				if prm, isPrm := x.(*ssa.Parameter); isPrm {
+					if site := w.uniqueSite(fn); site != nil {
+						for pi, fp := range fn.Params {
+							if fp == prm && pi < len(site.Common().Args) {
+								x = stripConv(site.Common().Args[pi])
+								factBlock = site.Block()
+							}
+						}
+					}
+				}
 				switch y := x.(type) {
 				case *ssa.Phi:
 					apps, _ := appendWeb(y)
@@ -1218,7 +1231,7 @@ func ruleNONEMPTY(w *World, r *Report, pkgs ...string) {
 				k++
 				n++
 				okFact := ""
-				for _, c := range cmpsAt(b) {
+				for _, c := range cmpsAt(factBlock) {
 					for _, pr := range []struct {
 						x, y ssa.Value
 						op   token.Token
@@ -1834,28 +1847,62 @@ func ruleSOLVEStores(w *World, r *Report) {
 		return false
 	}
 	n := 0
-	for _, b := range fn.Blocks {
-		for _, in := range b.Instrs {
-			st, ok := in.(*ssa.Store)
-			if !ok {
-				continue
-			}
-			ia, ok := st.Addr.(*ssa.IndexAddr)
-			if !ok || ia.X != data {
-				continue
-			}
-			key := fmt.Sprintf("%s:row-store#%d", shortName(fn), n)
-			n++
-			good := false
-			if ld, ok := st.Val.(*ssa.UnOp); ok && ld.Op == token.MUL {
-				if sa, ok := ld.X.(*ssa.IndexAddr); ok && fromApply(sa.X) {
-					good = true
+	// the stores may sit in a private helper that is handed data and the rows: its parameters
+	// stand for the arguments of the call in ReconstructData
+	type frame struct {
+		f    *ssa.Function
+		data ssa.Value
+		arg  map[ssa.Value]ssa.Value
+	}
+	frames := []frame{{fn, data, nil}}
+	for _, c := range callInstrs(fn) {
+		g := c.Common().StaticCallee()
+		if g == nil || len(g.Blocks) == 0 || !inRegion(fn, g) || g == fn {
+			continue
+		}
+		args := c.Common().Args
+		for pi, a := range args {
+			if a == data && pi < len(g.Params) {
+				m := map[ssa.Value]ssa.Value{}
+				for pj, a2 := range args {
+					if pj < len(g.Params) {
+						m[g.Params[pj]] = a2
+					}
 				}
+				frames = append(frames, frame{g, g.Params[pi], m})
 			}
-			if good {
-				r.ok("SOLVE", key, w.ipos(st), "the row stored is a row of the output of the matrix application (applyMatrix or its inlined form) that is given the solved reconstruction matrix")
-			} else {
-				r.bad("SOLVE", key, w.ipos(st), "a data row is filled with something other than a row of the slice handed, together with the matrix makeReconstructionMatrix returned, to the matrix application: this case is reconstructed by hand, outside the solver that accounts for which recovery rows are present")
+		}
+	}
+	for _, fr := range frames {
+		for _, b := range fr.f.Blocks {
+			for _, in := range b.Instrs {
+				st, ok := in.(*ssa.Store)
+				if !ok {
+					continue
+				}
+				ia, ok := st.Addr.(*ssa.IndexAddr)
+				if !ok || ia.X != fr.data {
+					continue
+				}
+				key := fmt.Sprintf("%s:row-store#%d", shortName(fn), n)
+				n++
+				good := false
+				if ld, ok := st.Val.(*ssa.UnOp); ok && ld.Op == token.MUL {
+					if sa, ok := ld.X.(*ssa.IndexAddr); ok {
+						src := sa.X
+						if up, isArg := fr.arg[src]; isArg {
+							src = up
+						}
+						if fromApply(src) {
+							good = true
+						}
+					}
+				}
+				if good {
+					r.ok("SOLVE", key, w.ipos(st), "the row stored is a row of the output of the matrix application (applyMatrix or its inlined form) that is given the solved reconstruction matrix")
+				} else {
+					r.bad("SOLVE", key, w.ipos(st), "a data row is filled with something other than a row of the slice handed, together with the matrix makeReconstructionMatrix returned, to the matrix application: this case is reconstructed by hand, outside the solver that accounts for which recovery rows are present")
+				}
 			}
 		}
 	}
